@@ -305,26 +305,26 @@ def r5(ctx):
     mod = ast.Module(body=case.body, type_ignores=[])
     sc = [c for c in calls(mod) if U(c.func) == f"{model}.sample"]
     par = enclosing_map(mod)
+    env = {n.targets[0].id: n.value for n in case.body if isinstance(n, ast.Assign) and len(n.targets) == 1 and isinstance(n.targets[0], ast.Name)}
     in_loop = False
     for c in sc:
         n = c
         while n in par:
-            n = par[n]
-            if isinstance(n, (ast.For, ast.While)):
-                in_loop = True
+            child, n = n, par[n]
+            if isinstance(n, (ast.For, ast.While)) and not (isinstance(n, ast.For) and n.iter is child):
+                in_loop = True      # evaluated once per iteration (the iterable expression itself is evaluated once)
     good = len(sc) == 1 and not in_loop
     if good:
         a = arg(sc[0], 0, "num_samples")
-        good = a is not None and U(a) == f"{results}.n_thetas"
+        good = a is not None and U(inline(a, env)) == f"{results}.n_thetas"
     # every returned sample is added
     added = False
     if good:
         tgt = [n for n in case.body if isinstance(n, ast.Assign) and n.value is sc[0]]
-        if tgt:
-            sv = U(tgt[0].targets[0])
-            for lp in [n for n in case.body if isinstance(n, ast.For) and U(n.iter) == sv]:
-                ad = [c for c in calls(lp, tail="add_theta")]
-                added = len(ad) == 1 and U(ad[0].args[0]) == U(lp.target) and len(lp.body) == 1
+        sv = U(tgt[0].targets[0]) if tgt else None
+        for lp in [n for n in case.body if isinstance(n, ast.For) and (U(n.iter) == sv or n.iter is sc[0])]:
+            ad = [c for c in calls(lp, tail="add_theta")]
+            added = len(ad) == 1 and U(ad[0].args[0]) == U(lp.target) and len(lp.body) == 1 and U(ad[0].func.value) == results
     ctx.check("R5", f"{f.site()}::vi-arm", good and added, "model.sample(num_samples=results.n_thetas) once; every returned sample added",
               "the variational arm does not request results.n_thetas samples in a single call and add each of them")
 
